@@ -492,6 +492,19 @@ _FLIP = {"<": ">", ">": "<", "=": "="}
 def cmp_rel(t, is_x, is_y):
     """if t compares x with y (either order, any operator spelling): the set of orderings of
     (x ? y) in which t is TRUE, e.g. `y <= x` -> {'>', '='}.  None if t is not such a comparison."""
+    if t[0] == "call" and t[1] in EQ and len(t[2]) == 2:
+        # x.cmp(&y) == Ordering::Less (/ != ..): the comparison spelled through Ord
+        for u_, v_ in ((t[2][0], t[2][1]), (t[2][1], t[2][0])):
+            if u_[0] == "call" and u_[1] in ("std::cmp::Ord::cmp",) and len(u_[2]) == 2 and v_[0] == "agg" and v_[1].endswith("cmp::Ordering") and v_[2] in ("Less", "Equal", "Greater"):
+                o_ = {"Less": "<", "Equal": "=", "Greater": ">"}[v_[2]]
+                a, b = u_[2]
+                if is_x(a) and is_y(b):
+                    r_ = {o_}
+                elif is_x(b) and is_y(a):
+                    r_ = {_FLIP[o_]}
+                else:
+                    return None
+                return r_ if EQ[t[1]] else ({"<", "=", ">"} - r_)
     if t[0] == "bin" and t[1] in _REL:
         a, b, rel = t[2], t[3], _REL[t[1]]
     elif t[0] == "call" and t[1] in _REL and len(t[2]) == 2:
